@@ -17,49 +17,70 @@ KINDS = {
 
 
 def conformance(tier, tag):
-    """Returns (tlc stats, counters, problems) — problems: list of (kind, case, problem record)."""
+    """Returns (tlc stats, counters, problems) -- problems: list of (kind, case, problem record).
+    Two explorations of the language of Parse.tla: MC_Parse (every single-token mutation of the base modules) and
+    MC_ParseGen (every viable prefix from the empty text up to a bound, and every token that ends viability)."""
     build_harness()
-    d = fresh_dir("run", f"parse-{tag}-{tier}")
-    cfg = "MC_Parse_q1.cfg" if tier == "quick" else "MC_Parse_t1.cfg"
-    st = tlc.run_tlc("MC_Parse", cfg, d, workers=8, timeout=1500)
-    if st["violation"]:
-        raise ToolError("MC_Parse: the specification violates its own invariant: " + st["violation"]["text"][:2000])
-    cases = os.path.join(d, "REPLAY.ndjson")
-    obs = os.path.join(d, "ptoks.ndjson")
-    k = 2 if tier == "quick" else 4
-    p = subprocess.run([PVH, "ptoks", "--in", cases, "--out", obs, "--n", str(k), "--seed", str(seed())],
-                       stdout=subprocess.PIPE, stderr=subprocess.STDOUT, text=True)
-    if p.returncode != 0:
-        raise ToolError("pvh ptoks failed: " + p.stdout[-2000:])
-    cnt = {"mutants": 0, "prints": 0, "spec_accepts": 0, "spec_accepts_other_module": 0, "spec_rejects_at_token": 0,
-           "spec_rejects_lexer": 0, "spec_rejects_at_end": 0}
+    runs = [("MC_Parse", "MC_Parse_q1.cfg" if tier == "quick" else "MC_Parse_t1.cfg", "mut"),
+            ("MC_ParseGen", "MC_ParseGen_q1.cfg" if tier == "quick" else "MC_ParseGen_t1.cfg", "gen")]
+    cnt = {"mutants": 0, "prefixes": 0, "dead_extensions": 0, "prints": 0, "spec_accepts": 0, "spec_accepts_other_module": 0,
+           "spec_rejects_at_token": 0, "spec_rejects_lexer": 0, "spec_rejects_at_end": 0}
     problems = []
-    n_obs = 0
-    for case, o in zip(tlc.read_ndjson(cases), tlc.read_ndjson(obs)):
-        n_obs += 1
-        if case["id"] != o["id"]:
-            raise ToolError("ptoks output out of step with the cases")
-        cnt["mutants"] += 1
-        cnt["prints"] += o["prints"]
-        n = len(case["toks"])
-        if case["ok"]:
-            cnt["spec_accepts"] += 1
-            if not case["same"]:
-                cnt["spec_accepts_other_module"] += 1
-        elif case["at"] == 0:
-            cnt["spec_rejects_lexer"] += 1
-        elif case["at"] == n + 1:
-            cnt["spec_rejects_at_end"] += 1
+    total = None
+    for module, cfg, name in runs:
+        d = fresh_dir("run", f"parse-{tag}-{name}-{tier}")
+        st = tlc.run_tlc(module, cfg, d, workers=8, timeout=2400)
+        if st["violation"]:
+            raise ToolError(f"{module}: the specification violates its own invariant: " + st["violation"]["text"][:2000])
+        cases = os.path.join(d, "REPLAY.ndjson")
+        obs = os.path.join(d, "ptoks.ndjson")
+        k = 2 if tier == "quick" else (4 if name == "mut" else 1)
+        p = subprocess.run([PVH, "ptoks", "--in", cases, "--out", obs, "--n", str(k), "--seed", str(seed())],
+                           stdout=subprocess.PIPE, stderr=subprocess.STDOUT, text=True)
+        if p.returncode != 0:
+            raise ToolError("pvh ptoks failed: " + p.stdout[-2000:])
+        n_obs = 0
+        for case, o in zip(tlc.read_ndjson(cases), tlc.read_ndjson(obs)):
+            n_obs += 1
+            if case["id"] != o["id"]:
+                raise ToolError("ptoks output out of step with the cases")
+            if name == "mut":
+                cnt["mutants"] += 1
+            elif case["op"] == "prefix":
+                cnt["prefixes"] += 1
+            else:
+                cnt["dead_extensions"] += 1
+            cnt["prints"] += o["prints"]
+            n = len(case["toks"])
+            if case["ok"]:
+                cnt["spec_accepts"] += 1
+                if name == "mut" and not case["same"]:
+                    cnt["spec_accepts_other_module"] += 1
+            elif case["at"] == 0:
+                cnt["spec_rejects_lexer"] += 1
+            elif case["at"] == n + 1:
+                cnt["spec_rejects_at_end"] += 1
+            else:
+                cnt["spec_rejects_at_token"] += 1
+            for pr in o["problems"]:
+                if len(problems) < 200:
+                    problems.append((pr["kind"], case, pr))
+        if n_obs != st["behaviours"]:
+            raise ToolError(f"ptoks judged {n_obs} of {st['behaviours']} sequences")
+        if total is None:
+            total = dict(st)
+            total["cfg"] = [cfg]
         else:
-            cnt["spec_rejects_at_token"] += 1
-        for pr in o["problems"]:
-            problems.append((pr["kind"], case, pr))
-    if n_obs != st["behaviours"]:
-        raise ToolError(f"ptoks judged {n_obs} of {st['behaviours']} sequences")
-    return st, cnt, problems
+            for key in ("generated", "distinct", "behaviours", "wall_s"):
+                total[key] += st[key]
+            total["depth"] = max(total["depth"], st["depth"])
+            total["cfg"].append(cfg)
+            total["module"] += " + " + st["module"]
+            total["cmd"] += " ; " + st["cmd"]
+    return total, cnt, problems
 
 
 def payload(case, pr):
-    return {"group": "parse", "base": case["b"], "mutation": {"op": case["op"], "i": case["i"], "a": case["a"]},
+    return {"group": case.get("group", "parse"), "base": case["b"], "mutation": {"op": case["op"], "i": case["i"], "a": case["a"]},
             "toks": case["toks"], "spec": {"ok": case["ok"], "at": case["at"], "gmod": case["gmod"] if case["ok"] else None},
             "text": pr["text"], "detail": pr["detail"]}
